@@ -26,4 +26,9 @@ TRUSTED = [
     "modelled rather than verified: TheRing::find_session_key / try_decrypt, match_identity, decrypt_session_key_with_password",
 ]
 ASSUMPTIONS = ["'found another key' is observed as a decryption error of the container (the library does not expose the chosen session key)"]
-KNOWN = {}
+def _skesk4(case, mout):
+    # identified by the circumstance the harness established from the packets (a presented password opens an SKESK v4 made for
+    # another password to a plausible key other than the message's), never by the wording of an error
+    return str(case.get("impl", "")).startswith("SKESK4-PASSWORD-OPENS-OTHER-PACKET: ")
+
+KNOWN = {"skesk4-other-password-plausible-key": _skesk4}
